@@ -514,7 +514,10 @@ func c15(c *core.Ctx, r *core.Report) {
 			if okI != okR {
 				r.Violation(key+".rate-pair", an.Pos(c, ret), "a runnable stage sets only one of IterationDuration / Rate")
 			}
-			if okI && okR {
+			if okI && okR && alwaysZeroRate(rv) {
+				// a stage that requests nothing at any tick (a pause): every tick interval goes with it
+				r.OK(key+".rate-pair", an.Pos(c, ret), "the rate is the constant 0: no load, whatever the interval")
+			} else if okI && okR {
 				fi, _ := an.TerminalField(iv)
 				fr, _ := an.TerminalField(rv)
 				var ci, cr ssa.Value
@@ -772,6 +775,30 @@ func returnAfterRecv(fn *ssa.Function, ret *ssa.Return, isDone func(ssa.Value) b
 
 // fromPlanField: v is a load of the named field of a RunnableStages value (the plan ParseConfigFile built, however
 // it reached this function: a call result, a parameter or a method receiver).
+// alwaysZeroRate: the rate function returns the constant 0 on every path.
+func alwaysZeroRate(v ssa.Value) bool {
+	var f *ssa.Function
+	switch x := an.Strip(v).(type) {
+	case *ssa.Function:
+		f = x
+	case *ssa.MakeClosure:
+		f, _ = x.Fn.(*ssa.Function)
+	case *ssa.ChangeType:
+		return alwaysZeroRate(x.X)
+	}
+	if f == nil || f.Blocks == nil {
+		return false
+	}
+	rets := an.Returns(f)
+	for _, ret := range rets {
+		k, ok := ret.Results[0].(*ssa.Const)
+		if !ok || k.Value == nil || k.Int64() != 0 {
+			return false
+		}
+	}
+	return len(rets) > 0
+}
+
 func fromPlanField(v ssa.Value, name string) bool {
 	fld, owner := an.TerminalField(v)
 	return fld != nil && fld.Name() == name && an.IsNamed(owner, filePkg, "RunnableStages")
